@@ -1035,9 +1035,11 @@ def table_roundtrip():
     return ""
 
 
+import c14s17     # noqa: E402
+
 PROPERTY = Property(
     pid="C14",
-    streams=[AggregateStream(), TomlStream(), LicensesStream(), WalkStream(), RootStream(), EndStream(), RunsStream()],
+    streams=[AggregateStream(), TomlStream(), LicensesStream(), WalkStream(), RootStream(), EndStream()] + c14s17.STREAMS + [RunsStream()],
     table_roundtrip=table_roundtrip,
     assumptions=[
         "which process handles which file, fork/pickle, the per-worker re-parse of .reuse/dep5 and PYTHONHASHSEED itself are run-time "
